@@ -413,10 +413,10 @@ theorem rstep_ref (f : Nat) (hV : RVal G f) : RRef G (f+1) := by
         obtain ⟨hn, hs1⟩ := alloc_ok ha
         subst hn; subst hs1
         simp only
-        have h0 : Frame s { trans := enter chain (refOf s.next) s.trans, next := s.next + 1, puts := s.puts } :=
+        have h0 : Frame s { trans := enter chain (refOf s.next) s.trans, next := s.next + 1, puts := s.puts, tgtV := s.tgtV } :=
           ⟨by simp, [], by simp, by simp, by simp⟩
-        have h1 := hV { trans := enter chain (refOf s.next) s.trans, next := s.next + 1, puts := s.puts } v
-        cases h : copyValE f G { trans := enter chain (refOf s.next) s.trans, next := s.next + 1, puts := s.puts } v with
+        have h1 := hV { trans := enter chain (refOf s.next) s.trans, next := s.next + 1, puts := s.puts, tgtV := s.tgtV } v
+        cases h : copyValE f G { trans := enter chain (refOf s.next) s.trans, next := s.next + 1, puts := s.puts, tgtV := s.tgtV } v with
         | mk rr s3 =>
           rw [h] at h1
           have h03 := h0.trans h1
@@ -910,6 +910,80 @@ example :
     let r2 := copyRefE 20 G1 r1.2 (2, 0)
     errOf r1.1 = some .read ∧ r1.2.trans = [] ∧ r1.2.next = 4 ∧ r1.2.puts.map Prod.fst = [(3, 0)] ∧
     errOf r2.1 = some .read ∧ r2.2.trans = [] ∧ r2.2.next = 6 := by
+  decide +kernel
+
+/-! ### a copy the target cannot represent fails cleanly (5f1fc4f)
+
+`Writer.Put` refuses a stream whose dictionary starts its /Filter with /Crypt when the target is
+encrypted with /V < 4 (crypt filters do not exist there), and every non-Identity /Crypt filter.
+Whether it does is a property of the source stream (`C11cpyb.putRefusal_map`).  For
+`CopyReference` the refusal is one more failing call: `failed_copy_keeps_consistent` and
+`failed_copy_trans_unchanged` above hold for every error, so the translation table is rolled
+back.  Where the caller writes the result of `Copy` itself (`Op.copyGet`, `Op.copyObj`) there is
+nothing to roll back — the objects nested in the value have been copied and written completely,
+the value itself never had a source reference — and `stepOpE_consistent` shows that the state stays
+consistent whatever the outcome of the operation. -/
+
+/-- a stream whose (direct) dictionary starts /Filter with a well-formed /Crypt entry is refused
+    by a target encrypted with /V 1, 2 or 3, whatever the crypt filter's name -/
+theorem put_refuses_crypt_below_V4 {s : St} {r : Ref} {d : KV} {data : Bytes} {enc : Bool} {k : FKind}
+    (hv : s.tgtV ≠ 0 ∧ s.tgtV < 4) (hk : dictCryptKind d = .ok (some k)) :
+    put s r (.stream d data enc) = .error .other := by
+  unfold put
+  split
+  · rfl
+  · simp only [putRefusal, hk]
+    cases k <;> simp [hv]
+
+/-- a non-Identity /Crypt filter is refused by every target -/
+theorem put_refuses_named_crypt {s : St} {r : Ref} {d : KV} {data : Bytes} {enc : Bool}
+    (hk : dictCryptKind d = .ok (some .cryptCF)) :
+    put s r (.stream d data enc) = .error .other := by
+  unfold put
+  split
+  · rfl
+  · simp only [putRefusal, hk]
+
+/-- where the target has crypt filters or is not encrypted, an Identity /Crypt filter (and a
+    stream without /Crypt filter, for every target) is taken -/
+theorem put_takes {s : St} {r : Ref} {d : KV} {data : Bytes} {enc : Bool}
+    (hfree : s.puts.any (fun p => p.1.1 == r.1) = false)
+    (hk : dictCryptKind d = .ok none ∨ (dictCryptKind d = .ok (some .cryptId) ∧ (s.tgtV = 0 ∨ 4 ≤ s.tgtV))) :
+    ∃ s', put s r (.stream d data enc) = .ok s' := by
+  unfold put
+  rw [hfree]
+  rcases hk with hk | ⟨hk, hv⟩
+  · simp [putRefusal, hk]
+  · have : ¬ (s.tgtV ≠ 0 ∧ s.tgtV < 4) := by omega
+    simp [putRefusal, hk, this]
+
+/-- 2 → {S: 3, T: 4}, 4 → {}; 3 is a stream /Filter [/Crypt /FlateDecode] with /DecodeParms
+    [<< /Name /Identity >> null] -/
+def G2 : Graph :=
+  [ ((2, 0), ⟨.val (.obj (.dict [([83], .ref 3 0), ([84], .ref 4 0)])), false⟩),
+    ((3, 0), ⟨.val (.stream [(keyFilter, .arr [.name nameCrypt, .name [70, 108, 97, 116, 101, 68, 101, 99, 111, 100, 101]]),
+                              (keyDecodeParms, .arr [.dict [(keyName, .name nameIdentity)], .null])] [1, 2, 3] false), false⟩),
+    ((4, 0), ⟨.val (.obj (.dict [])), false⟩) ]
+
+/-- Into a target encrypted with /V 2, `CopyReference(2)` fails with the refusal of the stream
+    (class "other"), `trans` is empty again, the two numbers allocated are used up and nothing
+    has been written; `CopyReference(4)` afterwards works.  Into an unencrypted target and into
+    one with /V 4 the same call succeeds and writes the three objects. -/
+example :
+    let r1 := copyRefE 30 G2 (St.init 2 2) (2, 0)
+    let r2 := copyRefE 30 G2 r1.2 (4, 0)
+    errOf r1.1 = some .other ∧ r1.2.trans = [] ∧ r1.2.next = 4 ∧ r1.2.puts = [] ∧
+    errOf r2.1 = none ∧ r2.2.trans.map Prod.fst = [(4, 0)] ∧ r2.2.puts.map Prod.fst = [(4, 0)] ∧
+    errOf (copyRefE 30 G2 (St.init 2 0) (2, 0)).1 = none ∧
+    (copyRefE 30 G2 (St.init 2 4) (2, 0)).2.puts.map Prod.fst = [(3, 0), (4, 0), (2, 0)] := by
+  decide +kernel
+
+/-- the caller's own `Put` of the copied stream (`v := Get(3); o := Copy(v); Put(Alloc(), o)`)
+    is refused by the same target: the operation fails, one number is used up, `trans` is as
+    before (the stream refers to no other object) -/
+example :
+    let r := stepOpE 30 G2 (St.init 2 2) [] (.copyGet (3, 0))
+    errOf r.1 = some .other ∧ r.2.trans = [] ∧ r.2.next = 3 ∧ r.2.puts = [] := by
   decide +kernel
 
 end PdfVerif.C11cpyd
